@@ -1067,6 +1067,25 @@ theorem C18_gen_size_window :
     Gen.Link.frameWritesBetweenAdmissionAndAccounting = [] ∧
     Gen.Link.frameCallsBetweenAdmissionAndAccounting = ["PacketCapture.capture_outbound:frame.model_dump_json()"] := by decide
 
+/-- **The reset path of a tick boundary, as the source has it now.** `PrimaiteGame.pre_timestep` → `Simulation.pre_timestep` →
+`Network.pre_timestep`, which resets the airspace and calls `pre_timestep` of **every** link — a loop whose body is exactly the one
+call, no condition (a link that is down, an interface that is disabled, a frequency nobody is on make no difference) —;
+`Link.pre_timestep` assigns `current_load = 0.0` unconditionally; `reset_bandwidth_load` drops every frequency's entry.  That is the
+model's `tick`.  Every `Link` is made by `Network.connect`, which registers it in `Network.links` (so the loop reaches it); the only
+`airspace=` a wireless node is built with on the `from_config` path is its network's own (`net.airspace`), so `Network.pre_timestep`
+resets the airspace every wireless interface of the network transmits on.  A condition in the loop (seeded C18-e: `if link.is_up`),
+a new constructor site, another airspace argument: the tables change and this obligation fails. -/
+theorem C18_gen_tick_reset_path :
+    Gen.Link.tickResetPath = [
+      ("PrimaiteGame.pre_timestep", ["self.simulation.pre_timestep(self.step_counter)"]),
+      ("Simulation.pre_timestep", ["super", "self.network.pre_timestep(timestep)"]),
+      ("Network.pre_timestep", ["super", "self.airspace.reset_bandwidth_load()", "every node: pre_timestep (unconditional)", "every link: pre_timestep (unconditional)"]),
+      ("Link.pre_timestep", ["super", "self.current_load = 0.0"]),
+      ("AirSpace.reset_bandwidth_load", ["self.bandwidth_load = {}"]),
+      ("Network.connect", ["registers the link in self.links"])] ∧
+    Gen.Link.linkConstructionSites = ["container.py:Network.connect"] ∧
+    Gen.Link.airspaceArgumentSites = ["game.py:PrimaiteGame.from_config:airspace=net.airspace", "wireless_router.py:WirelessRouter.__init__:airspace=self.airspace", "wireless_router.py:WirelessRouter.from_config:airspace=airspace"] := by decide
+
 /-! ### Non-vacuity: a tight link, an ARP-like request whose delivery triggers the reply -/
 
 /-- Link of 10 units, both ends up; request of 6 whose delivery sends a reply of 6 back: the reply is dropped at the
@@ -2443,6 +2462,67 @@ example :
     let r := runSeg (tick n) [] [.act [.send 0 true 8 true []], .act [.send 0 false 8 true []], .tick,
       .act [.setEn 0 true false, .setEn 0 true true, .send 0 true 8 true [.setEn 0 false false]], .tick, .act [.send 0 true 1 true []]]
     r.2.map (carriedOn false 0) = [8, 8, 0] ∧ r.2.map (·.map (·.verdict)) = [[.carried, .full], [.carried], [.down]] := by
+  decide
+
+/-! ### Loads start every tick at zero — for every history, whatever is down at the boundary -/
+
+theorem run_append_fst (n : Net) (a b : List Op) : (run n (a ++ b)).1 = (run (run n a).1 b).1 := by
+  induction a generalizing n with
+  | nil => rfl
+  | cons o os ih => simp only [List.cons_append, run]; exact ih _
+
+/-- **Every tick starts at zero.** Take any network in any state, run any history (nested sends, interfaces toggled, deliveries cut
+short, interfaces added to / removed from the airspace, capacities reassigned), then pass a tick boundary: every wired link and
+every wireless channel has load 0 — whether the link is up or down, whether its interfaces are enabled, whether anybody is left on
+the frequency — and nothing else has changed (bandwidths, capacities, enabled flags, membership). -/
+theorem C18_every_tick_starts_at_zero (n : Net) (ops : List Op) :
+    (∀ l ∈ (run n (ops ++ [.tick])).1.links, l.load = 0) ∧ (∀ c ∈ (run n (ops ++ [.tick])).1.chans, c.load = 0) ∧
+    (∀ k, loadOf (run n (ops ++ [.tick])).1 k = 0 ∧ cloadOf (run n (ops ++ [.tick])).1 k = 0) ∧
+    (run n (ops ++ [.tick])).1.links.map (fun l => (l.bw, l.enA, l.enB)) = (run n ops).1.links.map (fun l => (l.bw, l.enA, l.enB)) ∧
+    (run n (ops ++ [.tick])).1.chans.map (fun c => (c.caps, c.en, c.mem)) = (run n ops).1.chans.map (fun c => (c.caps, c.en, c.mem)) := by
+  have h : (run n (ops ++ [.tick])).1 = tick (run n ops).1 := by
+    rw [run_append_fst]; rfl
+  rw [h]
+  obtain ⟨h1, h2, h3, h4⟩ := C18_tick_starts_zero (run n ops).1
+  exact ⟨h1, h2, fun k => ⟨loadOf_tick _ k, cloadOf_tick _ k⟩, h3, h4⟩
+
+/-- In particular a link that is down at the boundary, and a channel whose every interface is disabled and gone. -/
+theorem C18_down_link_starts_at_zero (n : Net) (k : Nat) (l : Link) (_hl : n.links[k]? = some l) (_hdown : l.isUp = false) :
+    loadOf (tick n) k = 0 := loadOf_tick n k
+
+/-- a link that carried 8 and then lost an end, a channel that carried 6 and was then emptied: both read 0 after the boundary, and
+the link, re-enabled in the new tick, has its whole bandwidth again -/
+example :
+    let n : Net := { links := [{ bw := 10, load := 0, enA := true, enB := true }],
+                     chans := [{ caps := [10], load := 0, en := [true] }] }
+    let r := run n [.act [.send 0 true 8 true [], .setEn 0 false false, .wsend 0 0 6 [], .wsetEn 0 0 false, .wleave 0 0], .tick,
+                    .act [.setEn 0 false true, .send 0 true 9 true []]]
+    (run n [.act [.send 0 true 8 true [], .setEn 0 false false, .wsend 0 0 6 [], .wsetEn 0 0 false, .wleave 0 0], .tick]).1 =
+      { links := [{ bw := 10, load := 0, enA := true, enB := false }],
+        chans := [{ caps := [10], load := 0, en := [false], mem := [false] }] } ∧
+    r.2.map (·.verdict) = [.carried, .carried, .carried] := by decide
+
+/-- What the property excludes, as checked statements (seeded change C18-e; never in the repository): a boundary that resets only
+the links that are up. -/
+def tickUpOnly (n : Net) : Net :=
+  { links := n.links.map (fun l => if l.isUp then { l with load := 0 } else l),
+    chans := n.chans.map (fun c => { c with load := 0 }) }
+
+def C18_Full_upOnly_starts_zero : Prop := ∀ (n : Net), ∀ l ∈ (tickUpOnly n).links, l.load = 0
+
+/-- a link that went down after carrying 8 still reads 8 after such a boundary, and when it comes back in the new tick a frame of
+5 that fits its bandwidth of 10 is dropped at the sender -/
+theorem C18_reset_only_up_links_counterexample :
+    ¬ C18_Full_upOnly_starts_zero ∧
+    ((runEvs (tickUpOnly { links := [{ bw := 10, load := 8, enA := true, enB := false }], chans := [] })
+        [.setEn 0 false true, .send 0 true 5 true []]).2.map (·.verdict) = [.full]) ∧
+    ((runEvs (tick { links := [{ bw := 10, load := 8, enA := true, enB := false }], chans := [] })
+        [.setEn 0 false true, .send 0 true 5 true []]).2.map (·.verdict) = [.carried]) := by
+  refine ⟨?_, by decide, by decide⟩
+  intro h
+  have := h { links := [{ bw := 10, load := 8, enA := true, enB := false }], chans := [] }
+    { bw := 10, load := 8, enA := true, enB := false } (by decide)
+  revert this
   decide
 
 /-! ### What was wrong before the repair of F-40, kept as a checked statement (one link, no nesting) -/
